@@ -27,6 +27,12 @@ type PropSpec struct {
 	Kinds       []string `json:"kinds"`       // obligation kinds / "kind/label-prefix"; empty = all
 	Exclude     []string `json:"exclude"`     // function keys excluded from wildcard expansion
 	ExcludeK    []string `json:"exclude_kinds"` // obligations (kind or kind/label-prefix) belonging to other properties
+	// Rely: obligation kinds (of the functions of this property) that are not
+	// counted for this property themselves but that its proofs rely on through
+	// callee contracts and loop invariants.  When one fails, the clause is
+	// withdrawn and the functions relying on it are verified again without it;
+	// the property is violated iff one of its own obligations then fails.
+	Rely []string `json:"rely"`
 	FrameAll    bool     `json:"frame_all"`     // functions without a contract are checked against `assigns \\nothing`
 	Assumptions []string `json:"assumptions"` // stated, unchecked assumptions
 	Bounded     []struct {
@@ -66,6 +72,8 @@ func loadProps(dir string) (map[string]*PropSpec, error) {
 	}
 	return m, nil
 }
+
+func shortName(k string) string { return strings.TrimPrefix(k, modPath+"/") }
 
 func kindMatches(kinds []string, o *vc.Obligation) bool {
 	if len(kinds) == 0 {
@@ -216,12 +224,84 @@ func runCheck(prop, tier string, seed int) int {
 	}
 	wg.Wait()
 
+	// relied-upon clauses that failed: withdraw them and verify the functions
+	// that relied on them again (until nothing new fails)
+	var withdrawn []string
+	if len(ps.Rely) > 0 {
+		counted := func(o *vc.Obligation) bool {
+			return kindMatches(ps.Kinds, o) && !(len(ps.ExcludeK) > 0 && kindMatches(ps.ExcludeK, o))
+		}
+		fullKey := map[string]int{}
+		for i, r := range results {
+			fullKey[vc.FuncKey(w.funcs[r.name])] = i
+		}
+		for round := 0; round < 8; round++ {
+			rerun := map[int]bool{}
+			for i, r := range results {
+				for _, o := range r.res {
+					if o.O.Cover || o.Status == "proved" || counted(o.O) || !kindMatches(ps.Rely, o.O) {
+						continue
+					}
+					var key string
+					switch o.O.Kind {
+					case "post":
+						key = vc.FuncKey(w.funcs[r.name]) + "/post/" + stableName(o.O.Label)
+					case "inv-init", "inv-keep":
+						key = o.O.InKey + "/inv/" + o.O.Label
+					default:
+						continue
+					}
+					if w.db.Dropped[key] {
+						continue
+					}
+					if w.db.Dropped == nil {
+						w.db.Dropped = map[string]bool{}
+					}
+					w.db.Dropped[key] = true
+					withdrawn = append(withdrawn, fmt.Sprintf("%s (%s)", shortName(key), o.Status))
+					if o.O.Kind == "post" {
+						fk := vc.FuncKey(w.funcs[r.name])
+						for j, r2 := range results {
+							if r2.ex.Callees[fk] {
+								rerun[j] = true
+							}
+						}
+					} else {
+						rerun[i] = true
+						_ = fullKey
+					}
+				}
+			}
+			if len(rerun) == 0 {
+				break
+			}
+			var wg2 sync.WaitGroup
+			for j := range rerun {
+				wg2.Add(1)
+				go func(j int) {
+					defer wg2.Done()
+					sem <- struct{}{}
+					ex := vc.NewExec(w.prog, w.db, w.funcs[results[j].name])
+					ex.Generate()
+					<-sem
+					res := ex.DischargeWith(quick, solverSem)
+					results[j] = &fnRes{name: results[j].name, ex: ex, res: res, gen: results[j].gen}
+				}(j)
+			}
+			wg2.Wait()
+		}
+		sort.Strings(withdrawn)
+		for _, wd := range withdrawn {
+			fmt.Printf("NOTE property=%s relied-upon clause %s does not hold; the functions relying on it were verified again without it\n", prop, wd)
+		}
+	}
+
 	// collect
 	var problems []string
 	nObl, nDis := 0, 0
 	bySolver := map[string]int{}
 	solverTime := 0.0
-	var samples []sample
+	var samples, slowest []sample
 	var undecided, violations []*vc.OblResult
 	var knownHit []string
 	externs := map[string]bool{}
@@ -299,12 +379,21 @@ func runCheck(prop, tier string, seed int) int {
 			default:
 				undecided = append(undecided, o)
 			}
+			src := ""
+			if o.O.Pos.IsValid() {
+				src = fmt.Sprintf("%s:%d", strings.TrimPrefix(o.O.Pos.Filename, "/repo/"), o.O.Pos.Line)
+			}
+			smp := sample{Obligation: o.O.Name(), Kind: o.O.Kind, Status: o.Status, Solver: o.Solver, TimeS: round3(o.Time), SMTNodes: o.Size, Source: src}
 			if len(samples) < 12 || o.Status != "proved" {
-				src := ""
-				if o.O.Pos.IsValid() {
-					src = fmt.Sprintf("%s:%d", strings.TrimPrefix(o.O.Pos.Filename, "/repo/"), o.O.Pos.Line)
+				samples = append(samples, smp)
+			} else {
+				// the five slowest proved obligations are always reported: they
+				// are the margin against the solver timeout
+				slowest = append(slowest, smp)
+				sort.Slice(slowest, func(i, j int) bool { return slowest[i].TimeS > slowest[j].TimeS })
+				if len(slowest) > 5 {
+					slowest = slowest[:5]
 				}
-				samples = append(samples, sample{Obligation: o.O.Name(), Kind: o.O.Kind, Status: o.Status, Solver: o.Solver, TimeS: round3(o.Time), SMTNodes: o.Size, Source: src})
 			}
 		}
 	}
@@ -333,6 +422,11 @@ func runCheck(prop, tier string, seed int) int {
 			suffix = " no-failing-input-found"
 		}
 		fmt.Printf("VIOLATION property=%s replay=%s obligation=%q%s\n", prop, path, o.O.Name(), suffix)
+	}
+	if quick {
+		replayGlobalDeadline = time.Now().Add(240 * time.Second)
+	} else {
+		replayGlobalDeadline = time.Now().Add(900 * time.Second)
 	}
 	for _, o := range violations {
 		report(o, "solver returned a counterexample (sat)")
@@ -389,7 +483,9 @@ func runCheck(prop, tier string, seed int) int {
 		"undecided":                len(undecided),
 		"failed":                   len(violations),
 		"known_findings_reported":  len(dedupe(knownHit)),
+		"relied_clauses_withdrawn": withdrawn,
 		"samples":                  samples,
+		"slowest_proved":           slowest,
 		"contract_files":           w.db.Files,
 		"contract_file_notes":      w.contractNotes,
 		"derived_loop_invariants":  autoInvs,
